@@ -16,6 +16,22 @@ type Finding struct {
 	What       string   `json:"what"`
 	Witness    string   `json:"witness"`
 	Fixed      string   `json:"fixed,omitempty"`
+	// Input identifies a finding of a stream without model triggers by the exact input that
+	// fails (a substring of the oracle's message)
+	Input string `json:"input,omitempty"`
+}
+
+// ExplainInput: a finding identified by its failing input.
+func (k *Known) ExplainInput(p, what string) string {
+	if k == nil {
+		return ""
+	}
+	for _, f := range k.Findings {
+		if f.Fixed == "" && f.Input != "" && has(f.Properties, p) && strings.Contains(what, f.Input) {
+			return f.ID
+		}
+	}
+	return ""
 }
 
 type Known struct{ Findings []Finding }
